@@ -30,6 +30,7 @@ type Dep struct {
 	Kind   string // "service" | "tag" | "value" | "container" | "param" | "string" | "func" | "concat" | "unknown"
 	Name   string // service / tag / param name, or the string literal
 	Expr   ast.Expr
+	Full   ast.Expr     // the whole argument expression as written in the file
 	Obj    types.Object // for value: the object the expression denotes (var, const, func, type name of T{})
 	Form   string       // for value: "ident", "&ident", "T{}", "&T{}", "literal"
 	Val    constant.Value
@@ -422,7 +423,7 @@ func classifyCtorLit(fl *ast.FuncLit) string {
 }
 
 func (m *GoModel) parseDep(info *types.Info, e ast.Expr) Dep {
-	d := Dep{Kind: "unknown", Expr: e, Pos: e.Pos(), Code: types.ExprString(e)}
+	d := Dep{Kind: "unknown", Expr: e, Full: e, Pos: e.Pos(), Code: types.ExprString(e)}
 	d.Raw, d.RawOK = m.commentBefore(e.Pos())
 	call, ok := ast.Unparen(e).(*ast.CallExpr)
 	if !ok {
@@ -632,4 +633,12 @@ func recvIdent(fd *ast.FuncDecl) string {
 		return fd.Recv.List[0].Names[0].Name
 	}
 	return ""
+}
+
+// Expr0 returns the whole argument expression as written.
+func (d Dep) Expr0() ast.Expr {
+	if d.Full != nil {
+		return d.Full
+	}
+	return d.Expr
 }
